@@ -511,3 +511,12 @@ add('c02-accumulator-flattened', ['C01', 'C02'], 'fire', 'PlateSlicer._transfer'
 add('c07-list-selection-sorted', ['C07', 'C13'], 'fire', 'Slicer.__init__',
     "    if isinstance(item, str):\n        if ':' in item:", "    if isinstance(item, list):\n        item = sorted(item)\n    if isinstance(item, str):\n        if ':' in item:",
     'the order of a list selection is lost', module=S)
+
+# ------------------------------------------------------------------------------------------------ ordinary Python pitfalls
+add('c06-floor-division-in-a-cell', ['C06', 'C02'], 'fire', 'Unit.convert_from',
+    'result = quantity * 1000.0 * substance.density', 'result = quantity * 1000.0 // (1 / substance.density)',
+    'a conversion floors its result')
+add('c13-custom-labels-sorted', ['C13'], 'fire', 'Plate.__init__',
+    'self.row_names = rows', 'self.row_names = sorted(rows)', 'custom labels are stored in another order than given')
+add('c13-custom-labels-copied', ['C13', 'C04'], 'silent', 'Plate.__init__',
+    'self.row_names = rows', 'self.row_names = list(rows)', 'an order-preserving copy of the given labels')
